@@ -39,6 +39,7 @@ func (Driver) ID() string { return "C10" }
 type Line struct {
 	Hdr     bool     `json:"hdr,omitempty"`
 	NewPath []string `json:"newpath,omitempty"`
+	InPlace []string `json:"inplace,omitempty"`
 	Hist    []Call   `json:"hist"`
 	Exp     []Sub    `json:"exp"`
 	Pen     [2]int   `json:"pen"`
@@ -91,7 +92,10 @@ type Verdict struct {
 	Pen  [2]int   `json:"pen"`
 }
 
-var defaultNewPath = []string{"Copy", "Flatten", "ReplaceArcs", "XMonotone", "Reverse", "Dash", "Offset", "Stroke", "Settle", "And", "Or", "Xor", "Not", "DivideBy", "Translate", "Scale"}
+// rule set of the derived operations (NewPathOps / InPlaceOps of the spec header): a name = documented as returning a
+// new path (receiver and arguments must stay bit-identical); "!"+name = documented as working in place (the only
+// methods that may change the receiver)
+var defaultNewPath = []string{"!Transform", "!Gridsnap", "Copy", "Flatten", "ReplaceArcs", "XMonotone", "Reverse", "Dash", "Offset", "Stroke", "Settle", "And", "Or", "Xor", "Not", "DivideBy", "Translate", "Scale"}
 
 func setOf(l []string) map[string]bool {
 	m := map[string]bool{}
@@ -527,7 +531,7 @@ func (d Driver) Run(c *core.Ctx) error {
 	c.Assumptions = []string{
 		"coordinates are lattice integers mapped through similarity embeddings; a decoded value further than 1e-6 lattice units from the lattice is reported (offgrid), arcs are restricted to radii/rotations whose canonical form is lattice-exact",
 		"the meaning of a full turn in Arc() is two half ellipses through the opposite point",
-		"methods counted as 'documented as returning a new path': NewPathOps in spec/Builder.tla (Transform and Gridsnap are documented in-place and exempt)",
+		"no method may change its receiver's Data() except those documented in-place (InPlaceOps in spec/Builder.tla: Transform, Gridsnap); methods counted as 'documented as returning a new path' (arguments must stay unchanged too): NewPathOps",
 		"Triangulate (documented WIP), Tile and the rasterizer adapters are not part of the totality claim",
 	}
 	r := &run{c: c, evKey: map[string]int{}, feat: map[string]int64{}, triage: map[string]int64{}, offDetail: map[int]string{}, info: map[string]int64{}, newPath: setOf(defaultNewPath)}
@@ -549,6 +553,9 @@ func (d Driver) Run(c *core.Ctx) error {
 			var h Line
 			if json.Unmarshal(l, &h) == nil && h.Hdr && len(h.NewPath) > 0 {
 				r.newPath = setOf(h.NewPath)
+				for _, n := range h.InPlace {
+					r.newPath["!"+n] = true
+				}
 			}
 		}
 	}
